@@ -1,32 +1,40 @@
 reg("C05", "masked or undefined samples never influence a result",
     parts=[dict(harness="c05_mask", cases=dict(quick=3000, thorough=60000), timeout_case=10)],
     rule="metamorphic: case = (operation, sample set, drop mechanism, options) from the case PRNG. The sample set (ndim 1-3, "
-         "1-3 variables, 8-50 samples, optional heterotopy / weights / external drift) has samples DROPPED by one mechanism: "
-         "by=sel (selection: random / almost empty / empty / full), by=uval (all variables undefined), by=ucoord (one coordinate "
-         "undefined), by=mixed (selection + undefined values), by=selna (selection value itself undefined), +ufext (external "
-         "drift undefined). Two Dbs are built by the harness: MASKED (all samples; dropped ones switched off / undefined and "
-         "POISONED: values 1e15, coordinates 1e9 away) and REDUCED (Db::createFromSamples on the kept rows only; heterotopic "
-         "cells stay undefined in both). The operation runs on both; every output is mapped through the kept-sample index map and "
-         "compared BIT FOR BIT (no tolerance is used anywhere); return codes must agree; masked target rows must hold TEST in "
-         "newly created variables; pre-existing columns must be untouched; when nothing is left after removal no value may be "
-         "produced. Operations covered: kriging (unique / moving / moving+ball-tree neighbourhood; simple, ordinary, linear and "
-         "external drift; 1-2 variables; point and grid targets with masked targets), xvalid, Vario::compute (VARIOGRAM COVARIANCE "
-         "COVARIOGRAM MADOGRAM RODOGRAM POISSON COVARIANCE_NC ORDER4 TRANS1 TRANS2 BINORMAL; omni / multi-direction; by-sample "
-         "option; weights) incl. its stored means/variances, dbStatisticsMono / dbStatisticsMulti / dbStatisticsCorrel / "
-         "dbVarianceMatrix, Model::evalCovMatrix / evalCovMatrixSymmetric / evalCovMatrixOptim / evalCovMatrixSymmetricOptim / "
-         "evalCovMatrixSparse / evalDriftMatrix (one and two Dbs, variable ranks, explicit rank lists), simtub (conditional on a "
-         "grid with masked cells, same seed; non-conditional on points with masked targets), migrate / migrateMulti (plain and "
-         "ball-tree), Db selection predicates and selection-aware getters (isActive, getRanksActive, getColumn(useSel), extents...), "
-         "AnamHermite fit + rawToGaussian, PCA / MAF fit + dbZ2F, db_polygon, Polygons::createFromDb, db_selhull, db_vmap, db_vcloud. "
-         "distinct = distinct (operation, options, dimension, variable count, drop mechanism, selection shape) signatures with at "
-         "least one oracle evaluated. NOT generated: undefined coordinates for simtub / statistics / anamorphosis / PCA / vmap; "
-         "undefined values for migrate (convention not documented); DbGrid as DATA; block kriging; several variants listed in the "
-         "author report.",
-    require=dict(distinct=300,
-                 oracles=dict(quick={"kriging:equal": 150, "xvalid:equal": 80, "vario:gg": 300, "covmat:equal": 100, "simtub:equal": 80,
-                                     "migrate:equal": 50, "stats:mono": 10, "stats:multi": 10},
-                              thorough={"kriging:equal": 2500, "xvalid:equal": 1300, "vario:gg": 5000, "covmat:equal": 1600,
-                                        "simtub:equal": 1300, "migrate:equal": 800, "stats:mono": 150, "stats:multi": 150})),
-    assumptions=["the reduced Db built by the harness (Db::createFromSamples on kept rows + setLocator) is a faithful physical removal",
+         "1-3 variables, 8-50 samples [thorough: up to 200], optional heterotopy / weights / external drift) has samples DROPPED "
+         "by one mechanism: by=sel (selection: random / almost empty / empty / full), by=uval (all variables undefined), "
+         "by=ucoord (one coordinate undefined), by=mixed (selection + undefined values), by=selna (selection value itself "
+         "undefined), +ufext (external drift undefined). Two Dbs are built by the harness: MASKED (all samples; dropped ones "
+         "switched off / undefined and POISONED: values 1e15, coordinates 1e9 away) and REDUCED (Db::createFromSamples on the kept "
+         "rows only; heterotopic cells stay undefined in both). The operation runs on both; every output is mapped through the "
+         "kept-sample index map and compared BIT FOR BIT (no tolerance is used anywhere); return codes must agree; masked target "
+         "rows must hold TEST in newly created variables; pre-existing columns must be untouched; when nothing is left after "
+         "removal no value may be produced. OPERATIONS COVERED: kriging and test_neigh (unique / moving / moving+ball-tree "
+         "neighbourhood; simple, ordinary, linear-drift, external-drift and intrinsic linear models; 1-2 variables; point and grid "
+         "targets with masked targets), xvalid, Vario::compute (VARIOGRAM COVARIANCE COVARIOGRAM MADOGRAM RODOGRAM POISSON "
+         "COVARIANCE_NC ORDER4 TRANS1 TRANS2 BINORMAL; omni / multi-direction; by-sample option; weights) incl. its stored "
+         "means/variances, dbStatisticsMono / dbStatisticsMulti / dbStatisticsCorrel / dbVarianceMatrix / correlationPairs / "
+         "hscatterPairs / dbStatisticsPerCell, Model::evalCovMatrix / evalCovMatrixSymmetric / evalCovMatrixOptim / "
+         "evalCovMatrixSymmetricOptim / evalCovMatrixSparse / evalDriftMatrix (one and two Dbs, variable ranks, explicit rank "
+         "lists), simtub (conditional on a grid with masked cells, same seed; non-conditional on points with masked targets), "
+         "migrate / migrateMulti (plain and ball-tree), Db selection predicates and selection-aware getters (isActive, "
+         "getSelection, getRanksActive, getMultipleRanksActive, isActiveAndDefined, getColumn(useSel), extents, createReduce, "
+         "deleteSamples...), AnamHermite fit + rawToGaussian, PCA / MAF fit + dbZ2F, db_polygon, Polygons::createFromDb, "
+         "db_selhull, db_vmap, db_vcloud. distinct = distinct (operation, options, dimension, variable count, drop mechanism, "
+         "selection shape) signatures with at least one oracle evaluated. NOT generated: undefined coordinates for simtub / "
+         "statistics / anamorphosis / PCA / vmap / vcloud / polygons; undefined values for migrate (convention not documented); "
+         "DbGrid as DATA; block kriging, kribayes, krigprof, colocated cokriging; measurement-error variances; codes / dates / "
+         "faults; SPDE; conditional simulation to POINT targets (see author report).",
+    require=dict(distinct=800,
+                 oracles=dict(quick={"kriging:equal": 200, "xvalid:equal": 120, "vario:gg": 450, "covmat:equal": 150,
+                                     "simtub:equal": 140, "migrate:equal": 90, "stats:mono": 20, "stats:multi": 20,
+                                     "anam:psi": 50, "pca:eigvals": 50, "db:isActive": 50, "kriging:off-rows-TEST": 90},
+                              thorough={"kriging:equal": 4000, "xvalid:equal": 2400, "vario:gg": 9000, "covmat:equal": 3000,
+                                        "simtub:equal": 2800, "migrate:equal": 1800, "stats:mono": 400, "stats:multi": 400,
+                                        "anam:psi": 1000, "pca:eigvals": 1000, "db:isActive": 1000,
+                                        "kriging:off-rows-TEST": 1800})),
+    assumptions=["the reduced Db built by the harness (Db::createFromSamples on kept rows + setLocator) is a faithful physical "
+                 "removal (cross-checked against Db::createReduce and Db::deleteSamples by the db-predicates operation)",
                  "bit-for-bit equality is demanded because masked and reduced runs reach the same arithmetic in the same order "
-                 "(verified: 0 differences on the unchanged tree for every operation / mechanism not listed as a finding)"])
+                 "(verified: 0 differences on the unchanged tree for every operation / mechanism not listed as a finding)",
+                 "for conditional simulation on a grid the reference run keeps the same masked grid (only the data are reduced)"])
